@@ -333,6 +333,7 @@ func (f *fetcher) dedupFetch(req *http.Request, key cache.CacheKey, clientHd *he
 		return fetchResult{}, err
 	}
 	fetched = fetchedObj.(fetchResult)
+	verifYield("flight.afterDo")
 
 	// If shared is true, this means the request was coalesced.
 	// Meaning that the result is being shared with other requests in-flight.
